@@ -540,3 +540,113 @@ func init() {
 		}
 	})
 }
+
+// ---- CMP presigning: a signer whose delta / chi / sigma contribution is inconsistent (C04) ------------------
+
+func presignAbort(c *Ctx, variant, deviation string, cheaterIdx int) {
+	n := 3
+	t := 2
+	m0, _ := newMaterial(c, "cmp", n, t, c.Bytes(8))
+	if !m0.complete() {
+		return
+	}
+	signers := m0.ids
+	cheater := signers[cheaterIdx%len(signers)]
+	msg := c.Bytes(32)
+	sid := c.Bytes(8)
+	mkStart := func(id party.ID, pre *ecdsa.PreSignature) protocol.StartFunc {
+		var st protocol.StartFunc
+		switch variant {
+		case "offline":
+			st = cmp.Presign(m0.cm[id], signers, nil)
+		case "full":
+			st = presignFull(m0.cm[id], signers, msg)
+		case "online":
+			st = cmp.PresignOnline(m0.cm[id], pre, msg, nil)
+		}
+		if id == cheater {
+			st = protocol.StartFunc(presignDeviate(st, deviation))
+		}
+		return st
+	}
+	pres := map[party.ID]*ecdsa.PreSignature{}
+	if variant == "online" {
+		hs := map[party.ID]protocol.Handler{}
+		for _, id := range signers {
+			h, err := protocol.NewMultiHandler(cmp.Presign(m0.cm[id], signers, nil), sid)
+			if err != nil {
+				return
+			}
+			hs[id] = h
+		}
+		res := runSessions(c, hs, "fifo", nil)
+		for _, id := range signers {
+			p, ok := res.Results[id].(*ecdsa.PreSignature)
+			if !ok {
+				return
+			}
+			pres[id] = p
+		}
+	}
+	hs := map[party.ID]protocol.Handler{}
+	for _, id := range signers {
+		h, err := protocol.NewMultiHandler(mkStart(id, pres[id]), sid)
+		if err != nil {
+			c.Emit("tamper", J{"phase": "sign", "kind": "cmp-presign-" + variant, "note": "start failed: " + err.Error(), "tampering": []string{},
+				"blame": J{}, "sigs": []J{}, "signers": idsHex(signers), "cheater": hx([]byte(cheater)), "honest": []string{}, "msg": ""}, J{"ok": true})
+			return
+		}
+		hs[id] = h
+	}
+	// abort notices are not forwarded: every honest signer has to reach its own verdict
+	dropNotices := func(m *protocol.Message, to party.ID) []*protocol.Message {
+		if m.RoundNumber == 0 {
+			return nil
+		}
+		return []*protocol.Message{m}
+	}
+	res := runSessions(c, hs, "random", dropNotices)
+	honest := []party.ID{}
+	for _, id := range signers {
+		if id != cheater {
+			honest = append(honest, id)
+		}
+	}
+	sigs := []J{}
+	npre := 0
+	for _, id := range honest {
+		switch v := res.Results[id].(type) {
+		case *ecdsa.Signature:
+			sigs = append(sigs, J{"id": hx([]byte(id)), "R": ptHex(v.R), "s": scHex(v.S)})
+		case *ecdsa.PreSignature:
+			npre++
+		}
+	}
+	in := J{"phase": "sign", "kind": "cmp-presign-" + variant, "n": n, "t": t, "ids": idsHex(m0.ids), "signers": idsHex(signers),
+		"cheater": hx([]byte(cheater)), "tampering": []string{"state-level deviation: " + deviation}, "msg": hx(msg), "sigs": sigs,
+		"presignatures": npre, "blame": culpritsJ(res, honest), "honest": idsHex(honest), "pub": ptHex(m0.cm[signers[0]].PublicPoint()),
+		"expect_identified": true}
+	var impl interface{} = J{"ok": true}
+	if res.Panic != "" {
+		impl = J{"outcome": "PANIC", "detail": res.Panic}
+	}
+	c.Emit("tamper", in, impl)
+	c.Count("sess/presign-abort/" + variant + "/" + deviation)
+}
+
+func init() {
+	register("sess-presign-abort", func(c *Ctx) {
+		installPrimeHook(c.Intn(40))
+		type combo struct{ v, d string }
+		all := []combo{{"offline", "delta-share"}, {"full", "chi-x"}, {"full", "gamma"}, {"online", "sigma"}, {"offline", "chi-x"}, {"offline", "gamma"},
+			{"full", "delta-share"}, {"full", "sigma"}}
+		k := c.N
+		if k > len(all)*3 {
+			k = len(all) * 3
+		}
+		for i := 0; i < k; i++ {
+			cb := all[i%len(all)]
+			presignAbort(c, cb.v, cb.d, c.Intn(3))
+		}
+	})
+}
